@@ -75,6 +75,9 @@ def run_check(pid, files, tier="quick", seed=0, quiet=False, out=sys.stdout, wri
         print("ANALYSIS-ERROR property=%s no check registered" % pid, file=out)
         return 2, rep
     try:
+        from . import flow as _flow
+        _flow._INLINE_CACHE.clear()  # per-program caches keyed by object identity: dropped with the program they belong to (long-lived tool processes)
+        _flow._INLINE_STATS.clear()
         ctx = Ctx(files)
         ctx.tier = tier
         ctx.seed = seed
